@@ -671,10 +671,11 @@ def policies(n, tier):
     import itertools
 
     out = []
-    limit = 2 if tier == "quick" else 3
+    limit = 3 if tier == "quick" else n
+    kills = 1 if tier == "quick" else 2
     for combo in itertools.product("-ik", repeat=n):
         k = sum(1 for c in combo if c != "-")
-        if 1 <= k <= limit and combo.count("k") <= 1:
+        if 1 <= k <= limit and combo.count("k") <= kills:
             out.append("".join(combo))
     return out
 
@@ -693,9 +694,9 @@ def make_exec(key):
 
 
 def run(ctx):
-    bound = ctx.pick(2, 3)
+    bound = ctx.pick(3, 4)
     sp = specs(ctx.tier)
-    ctx.bounds = {"scenarios": list(SCENARIOS), "policies": "per message one of - (pass), i (intercept), k (kill in hook); <= %d not passed, <= 1 k" % ctx.pick(2, 3),
+    ctx.bounds = {"scenarios": list(SCENARIOS), "policies": "per message one of - (pass), i (intercept), k (kill in hook); %s" % ctx.pick("<= 3 not passed, <= 1 k", "any number not passed, <= 2 k"),
                   "user_actions": ["resume", "kill", "edit+resume"], "deviation_bound": bound, "specs": len(sp)}
     ctx.log("%d specs, deviation bound %d" % (len(sp), bound))
     mbfs.dfs_dev_many(sp, make_exec, bound, ctx.tally, log=ctx.log)
